@@ -429,6 +429,56 @@ static void sized_sequences(vh_rng* r, size_t n) {
   del(c); del(cp); del(a1); del(a2); del(cc);
 }
 
+
+/* every object an iterator hands out, forwards and backwards, is one of the container's live elements (the ones get
+   returns), has the element type, and there are exactly len of them -- also after elements were removed at the
+   head, the tail and in the middle (a released element must never be handed out again) */
+static void iterator_results(var c, var want_type, size_t n, const char* how) {
+  var live[256];
+  if (n > 256) { return; }
+  vh_eval();
+  if (len(c) != n) { vh_violation(K("iterator-results:len", how), "len %zu, expected %zu", len(c), n); return; }
+  for (size_t i = 0; i < n; i++) { live[i] = get(c, $I((int64_t)i)); }
+  for (int dir = 0; dir < 2; dir++) {
+    size_t steps = 0;
+    for (var it = dir ? iter_last(c) : iter_init(c); it != Terminal; it = dir ? iter_prev(c, it) : iter_next(c, it)) {
+      if (steps >= n) { vh_violation(K(dir ? "backward-iteration-hands-out-more-objects-than-len" : "forward-iteration-hands-out-more-objects-than-len", how), "%zu objects and counting, len is %zu", steps + 1, n); break; }
+      size_t want = dir ? n - 1 - steps : steps;
+      vh_eval();
+      if (it != live[want]) { vh_violation(K(dir ? "backward-iteration-hands-out-an-object-that-is-not-the-live-element" : "forward-iteration-hands-out-an-object-that-is-not-the-live-element", how), "step %zu: %p, element %zu is %p", steps, it, want, live[want]); break; }
+      observe(it, want_type, AllocData, how);
+      steps++;
+    }
+    if (steps < n) { vh_violation(K(dir ? "backward-iteration-ends-early" : "forward-iteration-ends-early", how), "%zu objects, len is %zu", steps, n); }
+  }
+  vh_count("iterator_result_walks");
+}
+
+static void iterator_results_after_edits(vh_rng* r, size_t n) {
+  if (n < 3) { n = 3; }
+  if (n > 60) { n = 60; }
+  char b[24], how[96];
+  for (int kind = 0; kind < 2; kind++) {
+    var c = kind ? (var)new(List, String) : (var)new(Array, String);
+    for (size_t i = 0; i < n; i++) { snprintf(b, sizeof b, "e%04zu", i); push(c, $S(b)); }
+    size_t m = n;
+    snprintf(how, sizeof how, "%s<String> as built", kind ? "List" : "Array");
+    iterator_results(c, String, m, how);
+    int edits = 1 + (int)vh_below(r, 6);
+    for (int e = 0; e < edits && m > 1; e++) {
+      switch (vh_below(r, 5)) {
+        case 0: pop_at(c, $I(0)); m--; snprintf(how, sizeof how, "%s<String> after its head was removed", kind ? "List" : "Array"); break;
+        case 1: pop(c); m--; snprintf(how, sizeof how, "%s<String> after its tail was removed", kind ? "List" : "Array"); break;
+        case 2: pop_at(c, $I((int64_t)(m / 2))); m--; snprintf(how, sizeof how, "%s<String> after a middle element was removed", kind ? "List" : "Array"); break;
+        case 3: { var first = get(c, $I(0)); char t[24]; snprintf(t, sizeof t, "%s", c_str(first)); rem(c, $S(t)); m--; snprintf(how, sizeof how, "%s<String> after rem of its first element", kind ? "List" : "Array"); break; }
+        default: push_at(c, $S("pushed"), $I(0)); m++; snprintf(how, sizeof how, "%s<String> after push_at(0)", kind ? "List" : "Array"); break;
+      }
+      iterator_results(c, String, m, how);
+    }
+    del(c);
+  }
+}
+
 /* the same refusals in a thread whose collector has never registered anything (empty registry):
    only raw and stack allocations are made there */
 static var fresh_thread_refusals(var args) {
@@ -473,13 +523,13 @@ static void fixed(void) {
     vh.oplen = 0; vh.oplog[0] = 0; vh.nops = 0;
     vh_op("enumeration at container size %zu", SZ[i]);
     enumerate_all(&r, SZ[i]);
-    for (int k = 0; k < 12; k++) { sized_maps(&r, SZ[i] + (size_t)k); sized_sequences(&r, SZ[i] + (size_t)k); }
+    for (int k = 0; k < 12; k++) { sized_maps(&r, SZ[i] + (size_t)k); sized_sequences(&r, SZ[i] + (size_t)k); iterator_results_after_edits(&r, SZ[i] + (size_t)k); }
   }
   /* OPEN FINDING reproducer: dealloc of an object obtained from alloc leaves its registry entry behind
      (in a child process: the stale entry would make a later sweep finalise freed memory) */
   {
     fflush(NULL);
-    pid_t pid = fork();
+    pid_t pid = vh_fork();
     if (pid == 0) {
       var x = alloc(Rec);
       dealloc(x);
@@ -513,6 +563,7 @@ static void case_random(vh_rng* r, long index) {
   enumerate_all(r, n);
   sized_maps(r, 1 + vh_below(r, 60)); sized_maps(r, 1 + vh_below(r, 200));
   sized_sequences(r, 1 + vh_below(r, 60));
+  iterator_results_after_edits(r, n);
   if (index % 4 == 0) { run_fresh_thread(); }
   vh_nontrivial();
 }
